@@ -47,6 +47,9 @@ func (c *Check) noPubHandlerIn(id string, ctor *ssa.Function) *ssa.Function {
 func runC17(c *Check) {
 	LostReceiverStores(c, "C17.CFG", "components/forwarder", "components/requeuer", "components/fanin")
 	DefaultsApplied(c, "C17.CFG", "components/forwarder", "components/requeuer", "components/fanin")
+	for _, rel := range []string{"components/forwarder", "components/requeuer", "components/fanin"} {
+		OptionalHooksGuarded(c, "C17.CFG", rel)
+	}
 	c17Forwarder(c)
 	c17ForwarderPublisher(c)
 	// the forwarder pair relays through the JSON envelope: its field-by-field agreement (also decided as C16.O4) is what keeps UUID, payload and metadata intact
